@@ -548,7 +548,25 @@ func runLBDist(x *X) {
 		k := 1 + c.Intn(3, "rounds")
 		total := k*len(elig) + c.Intn(len(elig)+1, "extra")
 		var plans []*reqPlan
+		switchAt := -1
+		if c.Intn(3, "switch-while-held") == 0 {
+			switchAt = c.Intn(total+1, "switch-at")
+		}
 		for i := 0; i < total && !x.dead; i++ {
+			if i == switchAt {
+				// the operator switches strategies (away and back, or to the same one) while requests are
+				// held open: what is in flight stays in flight, whatever strategy looks at it next
+				via := []string{"round_robin", "weighted_round_robin", "ip_hash", "least_connections"}[c.Intn(4, "switch-via")]
+				x.Do("switch", func() {
+					if err := h.lb.SetStrategy(via); err != nil {
+						panic(err)
+					}
+					if err := h.lb.SetStrategy("least_connections"); err != nil {
+						panic(err)
+					}
+				}, onErr)
+				x.Probe("strategy-switch-with-requests-in-flight")
+			}
 			// in-flight per backend before this dispatch (harness tally)
 			inflight := map[string]int{}
 			net.mu.Lock()
